@@ -266,6 +266,13 @@ static void judge(void) {
 		ioop *b = &X.ops[i]; if (b->kind != IO_BARRIER || !b->submitted || !b->barrier_start || b->after_close) continue;
 		for (int c = b->calls_at_bstart; c < b->calls_at_bend && c < sim_io_ncalls; c++)
 			if (sim_io_calls[c].fd == X.fd) h_viol("barrier-io", "a %s system call on the channel's descriptor happened while barrier #%d was running", sim_io_calls[c].is_write ? "write" : "read", b->idx);
+		// completions too: whatever was submitted behind the barrier -- also an operation that moves no bytes, or one that
+		// is refused because the channel has been closed meanwhile -- does not see done before the barrier has run
+		for (int j = i + 1; j < X.nops; j++) {
+			ioop *op = &X.ops[j]; if ((op->kind != IO_READ && op->kind != IO_WRITE) || !op->submitted || !op->done_count) continue;
+			if (op->done_started && op->done_started < b->barrier_start)
+				h_viol("barrier-order", "%s #%d (length %zu) was submitted after barrier #%d but its handler saw done before the barrier ran", ion[op->kind], op->idx, op->len, b->idx);
+		}
 		if (X.is_stream) {
 			size_t pos = 0;
 			for (int j = 0; j < X.nops; j++) {
